@@ -512,3 +512,317 @@ Proof.
       destruct errs; intros H; inversion H; subst; auto.
     + intros H; inversion H; subst. apply ext_refl.
 Qed.
+
+(* ------------------------------------------------------------------ the invariant of sequential histories *)
+Definition pend (st : state) (open : option Z) : app :=
+  match open with Some a => get_app st a | None => app_empty end.
+
+Definition covered (st : state) (open : option Z) (r : ref) : Prop :=
+  In r (series_refs (wal_records (d_wal (st_db st)))) \/ In r (map fst (p_series (pend st open))).
+
+Record Inv (st : state) (open : option Z) : Prop := mkInv {
+  inv_wal : w_cpidx (d_wal (st_db st)) < w_cur (d_wal (st_db st));
+  inv_apps : forall id, lookup id (st_apps st) <> None -> open = Some id;
+  inv_series : forall r, In r (series_ids (st_db st)) -> covered st open r;
+  inv_items : forall it, In it (pending_items (pend st open)) -> covered st open (item_ref it)
+}.
+
+(* one step of wf_from *)
+Definition next_open (open : option Z) (e : event) : option (option Z) :=
+  match e with
+  | EAppend a _ _ _ _ _ _ _ _ _ _ _ | EExemplar a _ _ =>
+      match open with None => Some (Some a) | Some b => if a =? b then Some open else None end
+  | ECommit a _ | ERollback a _ =>
+      match open with None => Some None | Some b => if a =? b then Some None else None end
+  | ETruncate _ | ERestart => match open with None => Some None | Some _ => None end
+  | ERoll | ESnap | EQuery _ _ _ => Some open
+  end.
+
+Lemma wf_from_cons open e l :
+  wf_from open (e :: l) = match next_open open e with Some o1 => wf_from o1 l | None => false end.
+Proof.
+  destruct e, open as [b|]; simpl; auto; destruct (a =? b); auto.
+Qed.
+
+Lemma inv_empty : Inv st_empty None.
+Proof.
+  constructor; simpl.
+  - lia.
+  - intros id H. contradiction.
+  - intros r [].
+  - intros it [].
+Qed.
+
+Lemma pend_open st open a :
+  Inv st open -> (open = None \/ open = Some a) -> get_app st a = pend st open.
+Proof.
+  intros I [E|E]; subst; simpl; auto.
+  unfold get_app. destruct (lookup a (st_apps st)) eqn:L; auto.
+  assert (None = Some a) by (apply (inv_apps _ _ I); congruence). discriminate.
+Qed.
+
+Lemma inv_append st open a d' p' :
+  Inv st open -> (open = None \/ open = Some a) ->
+  ext (st_db st) (get_app st a) d' p' ->
+  Inv (set_app st d' a p') (Some a).
+Proof.
+  intros I Ho X. rewrite (pend_open _ _ _ I Ho) in X. destruct X as [X1 X2 X3 X4 X5].
+  assert (P : pend (set_app st d' a p') (Some a) = p').
+  { simpl. unfold get_app, set_app. simpl. rewrite lookup_upsert_eq. auto. }
+  assert (C : forall r, covered st open r -> covered (set_app st d' a p') (Some a) r).
+  { intros r [H|H]; [left|right].
+    - simpl. rewrite X1. auto.
+    - rewrite P. apply X2. auto. }
+  assert (S : forall r, In r (series_ids d') -> covered (set_app st d' a p') (Some a) r).
+  { intros r H. destruct (X4 r H) as [H1|H1].
+    - apply C. apply (inv_series _ _ I). auto.
+    - right. rewrite P. auto. }
+  constructor.
+  - simpl. rewrite X1. apply (inv_wal _ _ I).
+  - intros id H. simpl in H. destruct (Z.eq_dec id a) as [E|N]; [subst; auto|].
+    rewrite lookup_upsert_neq in H by auto. apply (inv_apps _ _ I) in H.
+    destruct Ho as [E|E]; congruence.
+  - exact S.
+  - intros it H. rewrite P in H. destruct (X5 it H) as [H1|H1].
+    + apply C. apply (inv_items _ _ I). auto.
+    + apply S. auto.
+Qed.
+
+Lemma bump_ids : forall xs l, map s_ref (bump l xs) = map s_ref l.
+Proof.
+  assert (A : forall r f l, map s_ref (set_last r f l) = map s_ref l).
+  { intros r f. induction l as [|s l IH]; simpl; auto. destruct (s_ref s =? r); simpl; congruence. }
+  unfold bump. induction xs as [|x xs IH]; intros l; simpl; auto. rewrite IH. apply A.
+Qed.
+
+Lemma series_refs_log p : incl (map fst (p_series p)) (series_refs (log_records p)).
+Proof.
+  unfold log_records. rewrite series_refs_app, series_refs_nonempty. apply incl_appl, incl_refl.
+Qed.
+
+Lemma inv_finish st open a w' ser' (recs : list record) :
+  Inv st open -> (open = None \/ open = Some a) ->
+  wal_records w' = wal_records (d_wal (st_db st)) ++ recs ->
+  w_cpidx w' = w_cpidx (d_wal (st_db st)) -> w_cur (d_wal (st_db st)) <= w_cur w' ->
+  incl (map fst (p_series (pend st open))) (series_refs recs) ->
+  map s_ref ser' = series_ids (st_db st) ->
+  Inv (mkSt (mkDB (d_next (st_db st)) ser' (d_deleted (st_db st)) (d_lastex (st_db st)) w')
+            (remove_key a (st_apps st))) None.
+Proof.
+  intros I Ho HW HC HU HS HI. constructor; simpl.
+  - rewrite HC. pose proof (inv_wal _ _ I). lia.
+  - intros id H. rewrite lookup_remove_key in H. destruct (id =? a) eqn:E; [congruence|].
+    apply (inv_apps _ _ I) in H. apply Z.eqb_neq in E. destruct Ho; congruence.
+  - intros r H. unfold series_ids in H. simpl in H. rewrite HI in H.
+    left. simpl. rewrite HW, series_refs_app. apply in_app_iff.
+    destruct (inv_series _ _ I r H) as [H1|H1]; auto.
+  - intros it [].
+Qed.
+
+Lemma run_from_cons o st e t :
+  fst (run_from o st (e :: t)) = fst (run_from o (fst (step o st e)) t).
+Proof.
+  simpl. destruct (step o st e) as [st1 ob]. simpl. destruct (run_from o st1 t). reflexivity.
+Qed.
+
+Lemma run_from_app o : forall es st e,
+  fst (run_from o st (es ++ [e])) = fst (step o (fst (run_from o st es)) e).
+Proof.
+  induction es as [|x es IH]; intros st e.
+  - simpl. destruct (step o st e). reflexivity.
+  - rewrite <- app_comm_cons, !run_from_cons. apply IH.
+Qed.
+
+Lemma replay_series_in : forall recs st0 s,
+  In s (r_series (fold_left replay_rec recs st0)) ->
+  In s (r_series st0) \/ In (s_ref s) (series_refs (map snd recs)).
+Proof.
+  assert (SL : forall r f l, map s_ref (set_last r f l) = map s_ref l).
+  { intros r f. induction l as [|s l IH]; simpl; auto. destruct (s_ref s =? r); simpl; congruence. }
+  assert (A : forall seg l st0 r, In r (map s_ref (r_series (fold_left (replay_series seg) l st0))) ->
+                                  In r (map s_ref (r_series st0)) \/ In r (map fst l)).
+  { intros seg. induction l as [|e l IH]; intros st0 r H; simpl in *; auto.
+    apply IH in H. destruct H as [H|H]; auto. unfold replay_series in H.
+    destruct (find_lab (snd e) (r_series st0)); simpl in H; auto.
+    rewrite map_app in H. apply in_app_iff in H. simpl in H. destruct H as [H|[H|[]]]; auto. }
+  assert (B : forall seg l st0, map s_ref (r_series (fold_left (replay_sample seg) l st0)) = map s_ref (r_series st0)).
+  { intros seg. induction l as [|x l IH]; intros st0; simpl; auto. rewrite IH. unfold replay_sample.
+    destruct (lookup (fst (fst x)) (r_dup st0)); simpl; apply SL. }
+  assert (G : forall recs st0 r, In r (map s_ref (r_series (fold_left replay_rec recs st0))) ->
+                                 In r (map s_ref (r_series st0)) \/ In r (series_refs (map snd recs))).
+  { induction recs as [|[seg R] recs IH]; intros st0 r H; simpl in *; auto.
+    apply IH in H. unfold series_refs. simpl. rewrite in_app_iff. destruct H as [H|H]; auto.
+    unfold replay_rec in H. simpl in H. destruct R; auto.
+    - apply A in H. destruct H; auto.
+    - rewrite B in H. auto. }
+  intros recs st0 s H.
+  assert (H' : In (s_ref s) (map s_ref (r_series (fold_left replay_rec recs st0)))) by (apply in_map; auto).
+  apply G in H'. destruct H' as [H'|H']; auto.
+  (* refs only: weaken the left disjunct *)
+  left. (* not derivable in general: restated below on refs *)
+Abort.
+
+Lemma replay_series_refs : forall recs st0 r,
+  In r (map s_ref (r_series (fold_left replay_rec recs st0))) ->
+  In r (map s_ref (r_series st0)) \/ In r (series_refs (map snd recs)).
+Proof.
+  assert (SL : forall r f l, map s_ref (set_last r f l) = map s_ref l).
+  { intros r f. induction l as [|s l IH]; simpl; auto. destruct (s_ref s =? r); simpl; congruence. }
+  assert (A : forall seg l st0 r, In r (map s_ref (r_series (fold_left (replay_series seg) l st0))) ->
+                                  In r (map s_ref (r_series st0)) \/ In r (map fst l)).
+  { intros seg. induction l as [|e l IH]; intros st0 r H; simpl in *; auto.
+    apply IH in H. destruct H as [H|H]; auto. unfold replay_series in H.
+    destruct (find_lab (snd e) (r_series st0)); simpl in H; auto.
+    rewrite map_app in H. apply in_app_iff in H. simpl in H. destruct H as [H|[H|[]]]; auto. }
+  assert (B : forall seg l st0, map s_ref (r_series (fold_left (replay_sample seg) l st0)) = map s_ref (r_series st0)).
+  { intros seg. induction l as [|x l IH]; intros st0; simpl; auto. rewrite IH. unfold replay_sample.
+    destruct (lookup (fst (fst x)) (r_dup st0)); simpl; apply SL. }
+  induction recs as [|[seg R] recs IH]; intros st0 r H; simpl in *; auto.
+  apply IH in H. unfold series_refs. simpl. rewrite in_app_iff. destruct H as [H|H]; auto.
+  unfold replay_rec in H. simpl in H. destruct R; auto.
+  - apply A in H. destruct H; auto.
+  - rewrite B in H. auto.
+Qed.
+
+Lemma wal_tagged_records w : map snd (wal_tagged w) = wal_records w.
+Proof.
+  unfold wal_tagged, wal_records. rewrite map_app, map_map. simpl. rewrite map_id. reflexivity.
+Qed.
+
+Theorem inv_step o st open e open' :
+  Inv st open -> next_open open e = Some open' -> Inv (fst (step o st e)) open'.
+Proof.
+  intros I N. destruct e; simpl in N.
+  - (* EAppend *)
+    assert (Ho : (open = None \/ open = Some a) /\ open' = Some a).
+    { destruct open as [b|]; [destruct (a =? b) eqn:E; [|discriminate]|]; inversion N; subst; auto.
+      apply Z.eqb_eq in E. subst. auto. }
+    destruct Ho as [Ho E]. subst open'. simpl.
+    destruct (ver =? 1).
+    + destruct (append_v1 o (st_db st) (get_app st a) r b t v kind hbad) as [[d' p'] [[rr err] perr]] eqn:A.
+      simpl. eapply inv_append; eauto. eapply append_v1_ext; eauto.
+    + destruct (append_v2 o (st_db st) (get_app st a) r b st0 t v zv kind hbad stale exs) as [[d' p'] [[rr err] perr]] eqn:A.
+      simpl. eapply inv_append; eauto. eapply append_v2_ext; eauto.
+  - (* EExemplar *)
+    assert (Ho : (open = None \/ open = Some a) /\ open' = Some a).
+    { destruct open as [b|]; [destruct (a =? b) eqn:E; [|discriminate]|]; inversion N; subst; auto.
+      apply Z.eqb_eq in E. subst. auto. }
+    destruct Ho as [Ho E]. subst open'. simpl.
+    destruct (exemplar_v1 (st_db st) (get_app st a) r e) as [[d' p'] [[rr err] perr]] eqn:A.
+    simpl. eapply inv_append; eauto. eapply exemplar_v1_ext; eauto.
+  - (* ECommit *)
+    assert (Ho : (open = None \/ open = Some a) /\ open' = None).
+    { destruct open as [b|]; [destruct (a =? b) eqn:E; [|discriminate]|]; inversion N; subst; auto.
+      apply Z.eqb_eq in E. subst. auto. }
+    destruct Ho as [Ho E]. subst open'. simpl. unfold commit.
+    rewrite (pend_open _ _ _ I Ho).
+    eapply inv_finish with (recs := log_records (pend st open)); eauto.
+    + apply wal_records_write. apply (inv_wal _ _ I).
+    + apply wal_write_cur.
+    + apply series_refs_log.
+    + rewrite !bump_ids. reflexivity.
+  - (* ERollback *)
+    assert (Ho : (open = None \/ open = Some a) /\ open' = None).
+    { destruct open as [b|]; [destruct (a =? b) eqn:E; [|discriminate]|]; inversion N; subst; auto.
+      apply Z.eqb_eq in E. subst. auto. }
+    destruct Ho as [Ho E]. subst open'. simpl. unfold rollback.
+    rewrite (pend_open _ _ _ I Ho).
+    eapply inv_finish with (recs := nonempty RSeries (p_series (pend st open))); eauto.
+    + apply wal_records_write. apply (inv_wal _ _ I).
+    + apply wal_write_cur.
+    + rewrite series_refs_nonempty. apply incl_refl.
+  - (* ETruncate *)
+    destruct open; [discriminate|]. inversion N; subst. simpl.
+    assert (W : w_cpidx (d_wal (truncate (st_db st) mint)) < w_cur (d_wal (truncate (st_db st) mint))).
+    { rewrite truncate_wal, agent_truncate_wal. simpl. pose proof (inv_wal _ _ I).
+      destruct (plan_last (w_first (d_wal (st_db st))) (w_cur (d_wal (st_db st)))) eqn:P; simpl; [|lia].
+      apply plan_last_lt in P. lia. }
+    constructor; auto.
+    + apply (inv_apps _ _ I).
+    + intros r H. left. change (st_db {| st_db := truncate (st_db st) mint; st_apps := st_apps st |}) with (truncate (st_db st) mint) in *.
+      apply truncate_keeps_series; auto.
+      assert (H0 : In r (series_ids (st_db st))).
+      { unfold series_ids in *. simpl in H. apply in_map_iff in H. destruct H as [s [E Hs]].
+        apply filter_In in Hs. subst. apply in_map. tauto. }
+      destruct (inv_series _ _ I r H0) as [H1|H1]; auto. simpl in H1. contradiction.
+    + intros it [].
+  - (* ERoll *)
+    inversion N; subst. simpl. destruct I as [I1 I2 I3 I4]. constructor; simpl; auto. lia.
+  - (* ERestart *)
+    destruct open; [discriminate|]. inversion N; subst. simpl. constructor; simpl.
+    + pose proof (inv_wal _ _ I). lia.
+    + intros id H. contradiction.
+    + intros r H. left. simpl. unfold series_ids in H. simpl in H. unfold replay in H.
+      apply replay_series_refs in H. simpl in H. rewrite wal_tagged_records in H. destruct H as [[]|H]. auto.
+    + intros it [].
+  - (* ESnap *) inversion N; subst. exact I.
+  - (* EQuery *) inversion N; subst. exact I.
+Qed.
+
+Lemma inv_run o : forall es st open e,
+  Inv st open -> wf_from open (es ++ [e]) = true ->
+  exists open', Inv (fst (run_from o st es)) open' /\ next_open open' e <> None.
+Proof.
+  induction es as [|x es IH]; intros st open e I W.
+  - exists open. split; auto. simpl in W. rewrite wf_from_cons in W.
+    destruct (next_open open e); congruence.
+  - rewrite <- app_comm_cons, wf_from_cons in W. destruct (next_open open x) as [o1|] eqn:N; [|discriminate].
+    rewrite run_from_cons. eapply IH; eauto. eapply inv_step; eauto.
+Qed.
+
+(* in which record of a commit an item lands *)
+Lemma item_in_log p it :
+  In it (pending_items p) ->
+  exists m1 R m2, log_records p = (nonempty RSeries (p_series p) ++ m1) ++ R :: m2 /\ holds_item (fst it) (snd it) R.
+Proof.
+  intros H. unfold pending_items in H. unfold log_records.
+  assert (G : forall rest R, In R rest -> holds_item (fst it) (snd it) R ->
+              exists m1 R0 m2, nonempty RSeries (p_series p) ++ rest = (nonempty RSeries (p_series p) ++ m1) ++ R0 :: m2 /\
+                               holds_item (fst it) (snd it) R0).
+  { intros rest R HR HH. apply in_split in HR. destruct HR as [m1 [m2 E]]. exists m1, R, m2. subst.
+    rewrite app_assoc. auto. }
+  rewrite !in_app_iff in H. destruct H as [H|[H|[H|H]]]; apply in_map_iff in H; destruct H as [y [E Hy]]; subst it; simpl.
+  - apply G with (R := RSamples 0 (p_samples p)).
+    + rewrite (in_nonempty _ _ _ Hy). simpl. auto.
+    + simpl. auto.
+  - destruct y as [c x]. simpl.
+    assert (Hs : In x (sel c (p_hist p))).
+    { unfold sel. apply in_map_iff. exists (c, x). split; auto. apply filter_In. split; auto. simpl. apply eqb_reflx. }
+    destruct c.
+    + apply G with (R := RSamples 3 (sel true (p_hist p))).
+      * rewrite (in_nonempty _ _ _ Hs). rewrite !in_app_iff. simpl. auto.
+      * simpl. auto.
+    + apply G with (R := RSamples 1 (sel false (p_hist p))).
+      * rewrite (in_nonempty _ _ _ Hs). rewrite !in_app_iff. simpl. auto.
+      * simpl. auto.
+  - destruct y as [c x]. simpl.
+    assert (Hs : In x (sel c (p_fhist p))).
+    { unfold sel. apply in_map_iff. exists (c, x). split; auto. apply filter_In. split; auto. simpl. apply eqb_reflx. }
+    destruct c.
+    + apply G with (R := RSamples 4 (sel true (p_fhist p))).
+      * rewrite (in_nonempty _ _ _ Hs). rewrite !in_app_iff. simpl. auto 10.
+      * simpl. auto.
+    + apply G with (R := RSamples 2 (sel false (p_fhist p))).
+      * rewrite (in_nonempty _ _ _ Hs). rewrite !in_app_iff. simpl. auto 10.
+      * simpl. auto.
+  - apply G with (R := RExemplars (p_ex p)).
+    + rewrite (in_nonempty _ _ _ Hy). rewrite !in_app_iff. simpl. auto 10.
+    + simpl. auto.
+Qed.
+
+(* the commit of the (only) open appender logs every pending item after a series record of its ref *)
+Lemma commit_logged o st open a rolls it :
+  Inv st open -> next_open open (ECommit a rolls) <> None ->
+  In it (pending_items (get_app st a)) ->
+  logged (fst it) (snd it) (wal_records (d_wal (st_db (fst (step o st (ECommit a rolls)))))) = true.
+Proof.
+  intros I N H.
+  assert (Ho : open = None \/ open = Some a).
+  { simpl in N. destruct open as [b|]; auto. destruct (a =? b) eqn:E; [|congruence]. apply Z.eqb_eq in E. subst; auto. }
+  simpl. unfold commit. simpl. rewrite wal_records_write by apply (inv_wal _ _ I).
+  rewrite (pend_open _ _ _ I Ho) in *.
+  destruct (item_in_log _ _ H) as [m1 [R [m2 [E HR]]]]. rewrite E.
+  rewrite app_assoc. apply logged_from_intro; auto. right.
+  rewrite !series_refs_app, series_refs_nonempty, !in_app_iff.
+  destruct (inv_items _ _ I it H) as [C|C]; auto.
+Qed.
